@@ -1,6 +1,7 @@
 package interp
 
 import (
+	"crypto/md5"
 	"fmt"
 	"go/types"
 	"math/big"
@@ -927,7 +928,34 @@ func (in *Interp) imageJSON(sn *fsSnapshot, model map[string]string) string {
 			}
 		}
 	}
+	// checksums: the model's MD5 digests are uninterpreted bytes; the image handed to the native replay
+	// must carry the real digest of the (now concrete) content, or the real reader rejects every record
+	tab, _ := in.extra["md5"].([]*md5Entry)
+	for _, e := range tab {
+		for _, c := range e.cells {
+			if c != nil && !c.IsConst() && !seen[c.ID] {
+				seen[c.ID] = true
+				syms = append(syms, c)
+			}
+		}
+	}
 	vals := in.evalCells(syms, model)
+	for _, e := range tab {
+		buf := make([]byte, len(e.cells))
+		for i, c := range e.cells {
+			if c.IsConst() {
+				buf[i] = byte(c.I.Int64())
+			} else {
+				buf[i] = byte(vals[c.ID])
+			}
+		}
+		d := md5.Sum(buf)
+		for i, t := range e.digest {
+			if !t.IsConst() {
+				vals[t.ID] = int64(d[i])
+			}
+		}
+	}
 	var sb strings.Builder
 	sb.WriteString(`{"dirs":[`)
 	first := true
